@@ -528,10 +528,28 @@ func normCond(c ssa.Value, pol bool) []string {
 				op = negOp[op]
 			}
 			x, y := Expr(b.X), Expr(b.Y)
-			return []string{
+			out := []string{
 				fmt.Sprintf("(%s %s %s)", x, op, y),
 				fmt.Sprintf("(%s %s %s)", y, swapOp[op], x),
 			}
+			// a length is never negative: len(s) < 1, len(s) <= 0 say len(s) == 0; len(s) >= 1, len(s) > 0 say len(s) != 0
+			lx, ly, lop := x, y, op
+			if strings.HasPrefix(ly, "len(") {
+				lx, ly, lop = y, x, swapOp[op]
+			}
+			if strings.HasPrefix(lx, "len(") {
+				eq := ""
+				switch {
+				case (lop == token.LSS && ly == "1") || (lop == token.LEQ && ly == "0"):
+					eq = "=="
+				case (lop == token.GEQ && ly == "1") || (lop == token.GTR && ly == "0"):
+					eq = "!="
+				}
+				if eq != "" {
+					out = append(out, fmt.Sprintf("(%s %s 0)", lx, eq), fmt.Sprintf("(0 %s %s)", eq, lx))
+				}
+			}
+			return out
 		}
 	}
 	if pol {
